@@ -143,7 +143,7 @@ SHAPE_DEFAULTS = {
     "inPlaceShape": True, "streamingPatches": True, "viewResponsePatches": True, "buildShape": True,
     "stampShape": True, "echoShape": True, "errorLikeShape": True, "errorUnstampedShape": True,
     "serverEchoCall": True, "asyncServerEchoCalls": True,
-    "wsServerParser": "exact", "wsClientParser": "exact",
+    "wsServerParser": "exact", "wsClientParser": "exact", "serverReadArms": True, "asyncReadTimeoutCloses": True,
     "readShape": True, "asyncReadShape": True, "readIntoShape": True, "asyncReadIntoShape": True, "readExactShape": True,
 }
 
@@ -398,6 +398,24 @@ def shapes(facts):
     group(facts, ["wsServerParser"], lambda: {"wsServerParser": parser_kind("src/websocket_server.rs")()})
     group(facts, ["wsClientParser"], lambda: {"wsClientParser": parser_kind("src/websocket_client.rs")()})
 
+    # ---- the servers' read loops: what happens after a failed / timed-out frame read (a stream reader is not resumable:
+    # after an error the stream position is inside a frame, so the only sound continuations are to end the connection)
+    def g_read_loops():
+        srv = " ".join(fn_body(strip(read("src/server.rs")), "handle_connection").split())
+        m = re.search(r"match read_message_into\(&mut reader, &mut buf\) \{(.*?)\} let view", srv)
+        arms_ok = False
+        if m:
+            arms = " ".join(m.group(1).split())
+            arms_ok = arms in (
+                "Ok(()) => {} Err(RepeError::Io(ref e)) if e.kind() == std::io::ErrorKind::UnexpectedEof => break, Err(e) => return Err(e),",
+                "Ok(()) => {}, Err(RepeError::Io(ref e)) if e.kind() == std::io::ErrorKind::UnexpectedEof => break, Err(e) => return Err(e),")
+        asrv = " ".join(fn_body(test_mod_remove(strip(read("src/async_server.rs"))), "handle_connection").split())
+        a_ok = ("match timeout(dur, read_message_into_async(&mut reader, &mut buf)).await { Ok(r) => r?, Err(_) => return Ok(()), }" in asrv
+                and "read_message_into_async(&mut reader, &mut buf).await?;" in asrv
+                and len(re.findall(r"read_message_into_async\(", asrv)) == 2)
+        return {"serverReadArms": bool(arms_ok), "asyncReadTimeoutCloses": bool(a_ok)}
+    group(facts, ["serverReadArms", "asyncReadTimeoutCloses"], g_read_loops)
+
     # ---- stream readers, statement by statement
     def g_readers():
         def norm(body): return [" ".join(x.split()) for x in statements2(body)]
@@ -453,7 +471,7 @@ def render(f):
         L.append(f"def {k} : List Part := {lst(f[k])}")
     for k in ("decodeReturnsParsed", "sliceBoundsExact", "viewBoundsExact", "messageNewShape", "inPlaceShape", "streamingPatches", "viewResponsePatches",
               "buildShape", "stampShape", "echoShape", "errorLikeShape", "errorUnstampedShape", "serverEchoCall", "asyncServerEchoCalls",
-              "readShape", "asyncReadShape", "readIntoShape", "asyncReadIntoShape", "readExactShape"):
+              "readShape", "asyncReadShape", "readIntoShape", "asyncReadIntoShape", "readExactShape", "serverReadArms", "asyncReadTimeoutCloses"):
         L.append(f"def {k} : Bool := {'true' if f[k] else 'false'}")
     for k in ("wsServerParser", "wsClientParser"):
         L.append(f"def {k} : ParserKind := .{f[k]}")
